@@ -90,3 +90,8 @@ check("C06", "model_checking",
   "Atomic activities; 600-1500 generated models per tier.",
   "stateless model checking of the implementation over a generated model family, each model judged against a reference interpreter of the catch semantics",
   "DESIGN.md section 4 C06")
+check("C04", "model_checking",
+  "Every workflow of a bounded grammar (1-3 steps; conditional steps; 1-2 acts irq/msg/set with conditions; 2-3 branches if/else/needs with empty, leaf or act bodies in every declaration order; steps with branches and acts together; a loop family with a guarded backward `next` jump) x every valuation of the two inputs x every order of queued tasks and client answers is executed on the real engine and compared with a reference interpreter written from the property text: instances per node in creation order, final state of each, and the order edges (step after predecessor, acts one after another, body after branch, needs after the needed sibling, container after its children, re-entered step after the jumping step). A threaded variant completes the interrupts of parallel branches from two or three client threads with preemption at every engine scheduling point (bound 1 / 2).",
+  "Atomic activities in the program sweep (exhaustive when <= 2 regions are open, deviation bound 2 / 4 with three); node budget <= 5 (quick) / <= 6 (thorough); don't-care where the text decides nothing (needs on a skipped sibling, containers a jump leaves); worker-thread count is subsumed by schedule enumeration: with every hook-visible scheduling decision owned by the harness, any thread pool can only produce one of the enumerated orders (A-mode) or preemption patterns (T-mode, bounded).",
+  "stateless model checking of the implementation over a generated program family, each execution judged against a reference interpreter; CHESS-style preemption-bounded exploration of real client threads",
+  "DESIGN.md section 4 C04")
